@@ -297,8 +297,12 @@ func runJob(prog *sym.Program, j job, solver string, timeoutMs int) (r jobResult
 		return
 	}
 	if j.shard >= 0 {
-		m.ForceFirstChoice = j.shard
-		m.ForceFirst = true
+		m.ShardN, m.ShardI = j.meta.Split, j.shard
+		d := 2
+		for (1 << uint(d)) < 16*j.meta.Split {
+			d++
+		}
+		m.ShardDepth = d
 	}
 	func() {
 		defer func() {
